@@ -221,6 +221,9 @@ def const_key(v):
         if v[0] == "tuple":
             ks = [const_key(x) for x in v[1]]
             return None if any(k is None for k in ks) else tuple(ks)
+        if v[0] == "ctor" and len(v) == 3:
+            # a constructor applied to (possibly symbolic) payloads: the variant is known, the payloads only match catch-alls
+            return (v[1],) + tuple(const_key(x) if const_key(x) is not None else ANY_PAYLOAD for x in v[2])
         return None
     if isinstance(v, Poly):
         c = v.const_value()
@@ -229,9 +232,14 @@ def const_key(v):
     return None
 
 
+ANY_PAYLOAD = "<?>"
+
+
 def key_matches(pk, ck):
     if pk == "_":
         return True
+    if ck == ANY_PAYLOAD:
+        raise Unsupported("pattern inspects a symbolic payload")
     if isinstance(pk, tuple) and isinstance(ck, tuple) and len(pk) == len(ck) and (not pk or pk[0] not in ("|", "?", "range")):
         return all(key_matches(a, b) for a, b in zip(pk, ck))
     return pk == ck
@@ -350,6 +358,9 @@ def build_match(s, arms, guarded=False):
     if not guarded and arms and all(isinstance(v, tuple) and len(v) == 2 and v[0] == "tuple" for v in vals) and len({len(v[1]) for v in vals}) == 1 \
             and len(vals[0][1]) > 0:
         return ("tuple", [build_match(s, [(k, v[1][i]) for k, v in arms]) for i in range(len(vals[0][1]))])
+    if not guarded and len(arms) == 2 and isinstance(s, Poly) and arms[0][0] == "'Equal'" and arms[1][0] == "'_'" and arms[1][1] == s \
+            and "Ordering" in repr(s):
+        return app("ordering_then", s, arms[0][1])
     if not guarded and len(arms) == 2 and isinstance(s, Poly) and {k for k, _ in arms} in ({"True", "False"}, {"True", "'_'"}, {"False", "'_'"}):
         # match b { true => A, false => B } is if b { A } else { B }
         by = dict(arms)
@@ -742,6 +753,14 @@ class SymEval:
                 a, b = b, a
             return app(op.lower(), a, b)
         if op in ("And", "Or"):
+            isb = lambda x: isinstance(x, tuple) and len(x) == 2 and x[0] == "bool"
+            if isb(a) and isb(b):
+                return ("bool", (a[1] and b[1]) if op == "And" else (a[1] or b[1]))
+            for x, y in ((a, b), (b, a)):
+                if isb(x):
+                    if op == "And":
+                        return y if x[1] else ("bool", False)
+                    return ("bool", True) if x[1] else y
             return app(op.lower(), a, b)
         if op in ("BitAnd", "BitOr", "BitXor"):
             if order_of(vkey(a)) > order_of(vkey(b)):
@@ -890,8 +909,11 @@ class SymEval:
                         if "guard" in a:
                             raise Unsupported("guarded arm")
                         e2 = dict(env)
-                        if a["pat"].get("k") == "bind":
+                        try:
                             self.bind(a["pat"], s, e2)
+                        except Unsupported:
+                            if a["pat"].get("k") == "bind":
+                                raise
                         return self.eval(a["body"], e2)
             raise Unsupported("no arm matches %r" % (s,))
         arms = []
@@ -910,6 +932,15 @@ class SymEval:
             return args[0]
         if path in ("std::cmp::min", "std::cmp::max", "std::cmp::Ord::min", "std::cmp::Ord::max") and len(args) == 2:
             return mk_minmax(path.rsplit("::", 1)[-1], args[0], args[1])
+        if path in ("std::cmp::Ord::cmp", "std::cmp::PartialOrd::partial_cmp") and len(args) == 2 and \
+                all(isinstance(x, tuple) and len(x) == 3 and x[0] == "ctor" and len(x[2]) == 1 for x in args) and args[0][1] == args[1][1]:
+            # comparing two values of the same single-payload variant compares the payloads
+            return self.call_fn(path, inst, [args[0][2][0], args[1][2][0]], n, env)
+        if path in ("std::cmp::Ordering::then_with", "std::cmp::Ordering::then") and len(args) == 2:
+            second = args[1]
+            if isinstance(second, tuple) and second and second[0] in ("closure", "fn"):
+                second = self.apply(second, [])
+            return app("ordering_then", args[0], second)
         mm = STD_NUM_RX.match(path or "")
         if mm:
             name = mm.group(2)
@@ -956,6 +987,11 @@ class SymEval:
         base = path.rsplit("::", 1)[-1]
         o = args[0]
         is_opt = isinstance(o, tuple) and len(o) == 3 and o[0] == "opt"
+        if base in ("is_some", "is_none") and len(args) == 1:
+            if o == ("variant", "None"):
+                return ("bool", base == "is_none")
+            if isinstance(o, tuple) and len(o) == 3 and o[0] == "ctor" and o[1] == "Some":
+                return ("bool", base == "is_some")
         if not is_opt and not isinstance(o, Poly):
             return None
         src, val = (o[1], o[2]) if is_opt else (o, app("payload0", o))
